@@ -570,6 +570,18 @@ impl SpeedLimitTrainSim {
 
         // physics......
         let vel_change = time_per_mass * (f_applied - res_net);
+        // Braking never aims below `speed_target`, so the speed can only go negative when the
+        // available tractive force cannot hold the train against the resistance
+        ensure!(
+            self.state.speed + vel_change >= si::Velocity::ZERO
+                || utils::almost_eq_uom(&(self.state.speed + vel_change), &speed_target, None),
+            "{}\nTrain does not have sufficient power to move: it would roll backwards!\nspeed: {:?}, vel_change: {:?}, f_pos_max: {:?}, res_net: {:?}",
+            format_dbg!(),
+            self.state.speed,
+            vel_change,
+            f_pos_max,
+            res_net
+        );
         let vel_avg = self.state.speed + 0.5 * vel_change;
 
         // updating states of the train.
